@@ -212,6 +212,11 @@ def render(prog):
             ty = nd['ty']
             lines.append(nd['name'] + ' = ' + (lit_text(ty, m['v']) if nd.get('dims') else scalar_text(ty, m['v'])) +
                          ((' ' + m['u']) if m.get('u') else ''))
+    # trailing comments (without quote characters) on about a quarter of the property lines: they change nothing
+    import zlib
+    for k, ln in enumerate(lines):
+        if ln.startswith('  ') and '#' not in ln and zlib.crc32(ln.encode()) % 4 == 0:
+            lines[k] = ln + '   # note %d' % k
     return '\n'.join(lines)
 
 
